@@ -68,7 +68,8 @@ func (d *devSim) fault(echoLine, normal string, promptAfter string) bool {
 	if d.cfg.FaultPos != d.nRead {
 		return false
 	}
-	if d.cfg.FaultKind == "truncated" && (promptAfter == "" || strings.Contains(normal, "<!>")) {
+	more := strings.Contains(normal, "<!>") // the conforming reply reads further input
+	if d.cfg.FaultKind == "truncated" && (promptAfter == "" || more) {
 		// the conforming reply does not end with the standard prompt either: the truncation
 		// is invisible, the failure is the silence that follows
 		fmt.Fprintf(d.tr, "F %d %s\n", d.nRead+1, d.cfg.FaultKind)
@@ -76,7 +77,7 @@ func (d *devSim) fault(echoLine, normal string, promptAfter string) bool {
 		d.mark(d.cfg.FaultKind)
 	}
 	prompt := d.cfg.Name + "#"
-	normal = strings.ReplaceAll(normal, "<!>", "")
+	chunk, _, _ := strings.Cut(normal, "<!>") // what a conforming device prints before it reads again
 	switch d.cfg.FaultKind {
 	case "errtext":
 		d.emit(echoLine + d.cfg.ErrText + "\n" + prompt)
@@ -87,11 +88,17 @@ func (d *devSim) fault(echoLine, normal string, promptAfter string) bool {
 	case "unexpected":
 		d.emit(echoLine + "some unexpected output\n" + prompt)
 	case "garbled":
-		d.emit("xx" + echoLine + normal + promptAfter)
+		// only the echo is wrong; everything else as usual
+		d.emit("xx")
+		return false
 	case "silence":
 		d.silent = true
 	case "truncated":
-		d.emit(echoLine + normal)
+		if more {
+			d.emit(echoLine + chunk)
+		} else {
+			d.emit(echoLine + normal)
+		}
 		d.silent = true
 	case "close":
 		d.out.Flush()
